@@ -435,7 +435,7 @@ class Interp:
                 return self.prog.const_value(c)
             # fn items passed by name (map_err(…, server_error_to_actix))
             return Sym('fnitem', c)
-        if re.match(r'^[a-z_][\w:]*$', o):
+        if re.match(r'^[A-Za-z_][\w:]*$', o) and not re.match(r'^(copy|move|const)\b', o):
             return Sym('fnitem', o)
         raise Unsupported('operand ' + o)
 
